@@ -139,3 +139,65 @@ MANIFEST_TEXT["C16"] = dict(
     text="The finite grid spaces are enumerated completely and every predicate result is compared with exact integer arithmetic, so within those spaces the verdict is exhaustive; larger coordinates are sampled with forced degeneracies. Exploration level overall because the property also speaks of coordinates up to 2^20.",
     note="Trusts the harness' __int128 reference predicates; semantics of pointOnLine (open segment) and segmentShapeIntersect (half-open touching rule) taken from the code's documented behaviour.",
 )
+
+CHECKS["C03"] = dict(
+    level="exploration",
+    rule=("cases = scenes of interior-disjoint convex shapes with integer coordinates in three regimes (separated / touching cells sharing edges and corners / dense), "
+          "1-40 shapes (rectangles, triangles, diamonds, convex k-gons), 1-12 connectors with free, on-boundary and centre-pin ends, both routing modes, "
+          "shapeBufferDistance {0,2,5}, penalty vectors, nudging distances and options; every displayRoute() is judged by exact/eps-inset convex clipping. "
+          "non-trivial = the straight segment between some connector's attachments is blocked by a shape"),
+    workloads=[
+        dict(harness="c03_route", mode="valid", quick=16000, thorough=300000, watchdog=120, san_thorough=6000),
+    ],
+    min_nontrivial=dict(quick=3000, thorough=30000),
+    max_inconclusive=0.03,
+    require_obs=["routes_checked", "routes_with_blocked_straight_line", "buffered_routes_checked"],
+    assumptions=["a shape is exempt for a connector already when an endpoint lies on its border (more lenient than the router's strict-interior rule)",
+                 "orthogonal mode: free endpoints are generated outside shape bounding boxes (the orthogonal router works on bounding boxes)",
+                 "an invalid route is accepted as the documented straight-line fallback only when no path with clearance 1/4 exists (own visibility graph on inflated shapes)",
+                 "buffer zones are judged for rectangles only; for other polygons only the un-buffered polygon is judged"],
+)
+MANIFEST_TEXT["C03"] = dict(
+    technique="runtime monitor: exact convex-clipping oracle on every displayed route of generated scenes (three regimes, both modes, buffers, penalties, nudging, pins)",
+    text="Every route produced for thousands of generated scenes is checked from the API boundary: >=2 points, exact attachment points, and no segment through the interior of a non-exempt shape, with exact integer arithmetic (1e-7 inset for nudged coordinates). Held on the executions observed; recorded findings are matched by signature.",
+    note="Trusts the harness' convex clipping and its clearance-path oracle; sanitizer re-run in thorough.",
+)
+CHECKS["C04"] = dict(
+    level="exploration",
+    rule=("cases = scenes of 1-12 separated convex obstacles (gap>=1, integer coordinates), 1-4 polyline connectors between free points, segmentPenalty 0 / 5 / 50; "
+          "route cost compared with Dijkstra on an independently built visibility graph (penalty 0: all paths; penalty>0: taut paths). "
+          "non-trivial = some route has at least one bend"),
+    workloads=[dict(harness="c03_route", mode="shortest", quick=20000, thorough=250000, watchdog=120, san_thorough=4000)],
+    min_nontrivial=dict(quick=1200, thorough=30000),
+    max_inconclusive=0.02,
+    require_obs=["routes_judged", "routes_with_bends"],
+    assumptions=["with segmentPenalty>0 the comparison class is taut paths: bends only at shape corners, wrapping around the shape (the only bends a shortest-path router makes); "
+                 "the unrestricted visibility-graph optimum is recorded as an observation"],
+)
+MANIFEST_TEXT["C04"] = dict(
+    technique="runtime monitor: independent visibility-graph Dijkstra (exact integer visibility tests) vs route length / length+penalty*bends",
+    text="For each generated scene the optimum is computed by a reference implementation that shares nothing with libavoid (exact convex clipping for visibility, Dijkstra over vertices or directed edges) and the route's cost must agree to 1e-6. Held on the executions observed.",
+    note="Trusts the harness' visibility graph and Dijkstra; a valid route cheaper than the oracle is reported as inconclusive (oracle disagreement), never silently accepted.",
+)
+CHECKS["C05"] = dict(
+    level="exploration",
+    rule=("ortho: scenes of 1-10 separated rectangles (integer, many shared coordinates), orthogonal connectors between free points, segmentPenalty {1,10,50,200}; "
+          "(1) endpoints visible in all directions, 1-3 connectors: raw route cost must equal the optimum of a grid Dijkstra over (cell, heading); (2) one connector with "
+          "direction masks: axis-parallel, valid, masks honoured, compared with the grid optimum. bends: the complete table of Avoid::bends() (8 relative positions x 4 x 4 "
+          "directions x 3 distances) against BFS minimum bend counts. non-trivial = route with >=2 bends or a detour longer than the Manhattan distance / table entry with true minimum >=1"),
+    workloads=[
+        dict(harness="c03_route", mode="ortho", quick=40000, thorough=400000, watchdog=120, san_thorough=6000),
+        dict(harness="c03_route", mode="bends", quick=384, thorough=384, fixed=True, watchdog=30, san_thorough=384),
+    ],
+    min_nontrivial=dict(quick=3000, thorough=30000),
+    max_inconclusive=0.02,
+    require_obs=["routes_judged", "routes_with_direction_masks", "table_entries"],
+    exhaustive_note="mode 'bends' enumerates the complete estimator table (384 entries); 'ortho' is sampled",
+    assumptions=["the oracle applies libavoid's documented relaxation of direction masks for endpoints on the outermost scan position of the scene",
+                 "a 180-degree reversal is priced as two bends (as libavoid does)"],
+)
+MANIFEST_TEXT["C05"] = dict(
+    technique="runtime monitor: grid Dijkstra over (cell, heading) as reference optimum; exhaustive BFS table for the bend estimator",
+    text="Raw orthogonal routes are compared with an independent optimum on the Hanan grid of the scene; the bend estimator is checked on its complete input table against BFS. Held on the executions observed; F16 (turn pruning loses the grid optimum for direction-restricted endpoints) is a recorded finding.",
+    note="Trusts the harness' grid oracle and BFS; for direction-restricted endpoints the comparison grid is the one spanned by the scene's own coordinates.",
+)
